@@ -368,7 +368,14 @@ class RefDecoder:
         code = self.prim(child(path, "responseCode"), self._ftype("Response", "responseCode"))
         if code == 0:
             if cc not in L.cc_by_code:
-                self.undefined("response for an unknown command code")
+                if not self.check_values:
+                    self.undefined("response for an unknown command code")
+                # a reserved / unknown command code is an out-of-range value (C04); it is not on the wire of a response, so
+                # the error names the message itself, consumes nothing, and comes when the layout is first needed
+                self._stop(
+                    [{"kind": "value", "constraint_path": path, "type": "TPM_CC", "value": cc, "remaining": self._rest(), "offset": self.pos, "width": 0}],
+                    min_events=len(self.res.events),
+                )
             name, entry = L.cc_by_code[cc]
             self.struct(entry["response_handles"], child(path, "handles"))
             rp = None
